@@ -108,15 +108,18 @@ class RecordingPort(BaseIOPort):
                first _receive() call made when at least close_at messages have
                been taken in (after taking in that call's batch); None = never
     send_fail  number of _send calls after which _send raises OSError
+               (send_fail_closes: the device closes the port first, as SocketPort does on a broken pipe)
     recv_fail  (k, n): the k-th to (k+n-1)-th _receive calls raise OSError
     """
 
-    def _open(self, log=None, dev=(), batch=1, close_at=None, send_fail=None, label='rec', recv_fail=None, **kwargs):
+    def _open(self, log=None, dev=(), batch=1, close_at=None, send_fail=None, label='rec', recv_fail=None,
+              send_fail_closes=False, **kwargs):
         self.log = log if log is not None else []
         self.dev = list(dev)
         self.batch = batch
         self.close_at = close_at
         self.send_fail = send_fail
+        self.send_fail_closes = send_fail_closes   # like SocketPort on a broken pipe: close(), then raise
         self.recv_fail = recv_fail      # (first failing _receive call, how many calls fail) or None
         self.nrecv = 0
         self.label = label
@@ -131,6 +134,8 @@ class RecordingPort(BaseIOPort):
         self.nsend += 1
         self.log.append((self.label, '_send', msg, self.closed))
         if self.send_fail is not None and self.nsend > self.send_fail:
+            if self.send_fail_closes:
+                self.close()
             raise OSError('device refuses')
 
     def _receive(self, block=True):
